@@ -28,6 +28,8 @@ def raised_in_harness(exc: BaseException) -> bool:
     """True if the innermost frame of the exception lies in rsim code (a harness bug), not in resonaate."""
     import os
 
+    if "rsim injected" in str(exc) or "rsim: injected" in str(exc):
+        return False   # a fault the simulator injected on purpose
     tb = exc.__traceback__
     last = None
     while tb is not None:
